@@ -413,8 +413,14 @@ func makeOptionalPtrDecoder(typ reflect.Type) (decoder, error) {
 	if err != nil {
 		return nil, err
 	}
+	nilKind := emptyKindOf(etype)
 	dec := func(s *Stream, val reflect.Value) (err error) {
 		kind, size, err := s.Kind()
+		if err == nil && size == 0 && kind != Byte && kind != nilKind {
+			// the encoder writes exactly one kind of empty value for a nil pointer of this
+			// type; accepting the other one as well would give the value two encodings
+			return &decodeError{msg: fmt.Sprintf("wrong kind of empty value (got %v, want %v)", kind, nilKind), typ: typ}
+		}
 		if err != nil || size == 0 && kind != Byte {
 			// rearm s.Kind. This is important because the input
 			// position must advance to the next value even though
@@ -434,6 +440,22 @@ func makeOptionalPtrDecoder(typ reflect.Type) (decoder, error) {
 		return err
 	}
 	return dec, nil
+}
+
+// emptyKindOf returns the kind of empty value (empty string 0x80 or empty list 0xC0) that
+// encodes a nil pointer to etype, mirroring makePtrWriter.
+func emptyKindOf(etype reflect.Type) Kind {
+	k := etype.Kind()
+	switch {
+	case isUint(k) || k == reflect.String || k == reflect.Bool:
+		return String
+	case (k == reflect.Array || k == reflect.Slice) && isByte(etype.Elem()):
+		return String
+	case etype == bigInt:
+		return String
+	default:
+		return List
+	}
 }
 
 var ifsliceType = reflect.TypeOf([]interface{}{})
